@@ -25,15 +25,15 @@ class SingleAssignmentDisposable(DisposableBase):
         return self.current
 
     def set_disposable(self, value: DisposableBase) -> None:
-        if self.current:
-            raise Exception("Disposable has already been assigned")
-
         with self.lock:
+            if self.current is not None:
+                raise Exception("Disposable has already been assigned")
+
             should_dispose = self.is_disposed
             if not should_dispose:
                 self.current = value
 
-        if self.is_disposed and value:
+        if should_dispose and value is not None:
             value.dispose()
 
     disposable = property(get_disposable, set_disposable)
